@@ -319,11 +319,22 @@ def r1b_reader_wiring(rep, src):
                 if c_.func.attr == 'partition' and [norm(a_) for a_ in c_.args] == ["';'"] and y.slice.value == 2:
                     return True
         return False
+    lv = norm(loopst.target)
+    stripped_by_iter = set()
     for it in {norm(e_[1]): e_[1] for e_, _ in hdr}.values():
+        # the items may be stripped while iterating: map(str.strip, items) / (x.strip() for x in items)
+        pre = False
+        if isinstance(it, ast.Call) and norm(it.func) == 'map' and len(it.args) == 2 and norm(it.args[0]) == 'str.strip':
+            it, pre = it.args[1], True
+        elif isinstance(it, (ast.GeneratorExp, ast.ListComp)) and len(it.generators) == 1 and not it.generators[0].ifs \
+                and isinstance(it.generators[0].target, ast.Name) and norm(it.elt) == '%s.strip()' % it.generators[0].target.id:
+            it, pre = it.generators[0].iter, True
+        stripped_by_iter.add(pre)
         if not cut_of(it):
             why = 'the items are taken from %s, not from the text after the first ";" split at ","' % norm(it)[:80]
-    lv = norm(loopst.target)
-    P = ('strip', ('x', lv))
+    if len(stripped_by_iter) != 1:
+        raise AnalysisError('%s: the item loop is entered in different ways' % fp.site)
+    P = ('x', lv) if stripped_by_iter.pop() else ('strip', ('x', lv))
     K, V = ('g', 'keyvalue', P, 1), ('g', 'keyvalue', P, 2)
     n_urg = n_other = 0
     dict_other = dict_keys = None
